@@ -103,6 +103,13 @@ class C02(Oracle):
                 v.append(("C02/duration-fall", f"{name}: get_duration(fall) {df}, expected one of {sorted(exp)}"))
             elif df > cs.end:
                 ctx.probe("pending_fall_time")
+        if post.channels:
+            per = [seq.get_duration(n, include_fall_time=True) for n in post.channels]
+            totf = seq.get_duration(include_fall_time=True)
+            if totf != max(per):
+                v.append(("C02/seq-duration-fall", f"sequence duration incl. fall time {totf} != max over channels {max(per)} ({per})"))
+            elif len(per) > 1 and max(per) > max(ends) and per.index(max(per)) != ends.index(max(ends)):
+                ctx.probe("fall_time_of_non_latest_channel_decides")
         tot = seq.get_duration()
         if tot != (max(ends) if ends else 0):
             v.append(("C02/seq-duration", f"sequence duration {tot} != max channel end {max(ends) if ends else 0}"))
